@@ -30,7 +30,7 @@ ANCHORS = []
 WORKERS = {"quick": 12, "thorough": 16}
 WATCHDOG = {"quick": 1200, "thorough": 3400}
 REQUIRED = {"pair:A-has-resonance-B-lacks": 5, "pair:A-cartesian-B-not": 3, "pair:crossing-reader-classes": 5, "hash-seeds>=2": 1, "exact-reproducibility-run": 2,
-            "history-length>=3": 2, "failed-cartesian-read-then-polar-file": 5, "printing-conversion-with-colours-after-a-returning-one": 2, "file-converted-again-after-another": 2, "same-bare-resonance-name-different-sub-lines": 2, "fresh-single-runs": 10, **{f"entry:{e}": 3 for e in ENTRIES}, "across-hash-seeds-compared": 3, "all-ordered-file-pairs": 1}
+            "history-length>=3": 2, "failed-cartesian-read-then-polar-file": 5, "printing-conversion-with-colours-after-a-returning-one": 2, "text-argument-read-after-another-read": 2, "file-converted-again-after-another": 2, "same-bare-resonance-name-different-sub-lines": 2, "fresh-single-runs": 10, **{f"entry:{e}": 3 for e in ENTRIES}, "across-hash-seeds-compared": 3, "all-ordered-file-pairs": 1}
 EXHAUSTIVE_NOTE = "all 36 ordered pairs of pool files are run in every tier (entry points rotated over the 25 ordered entry pairs); all ordered triples of 3 files in thorough"
 ASSUMPTIONS = ["inside the fresh interpreters the pure name lookup is memoised per (name, particle-table size); the library's one-time loading of the special particles happens inside each history",
                "the parent cannot instrument the child interpreters with sys.monitoring: anchors are not traced for this property (results are observed at the process boundary)"]
@@ -194,6 +194,8 @@ class Runner:
             ctx.hit("history-length>=3")
         if len(hist) == 3 and hist[0] == hist[2] and hist[0][0] != hist[1][0]:
             ctx.hit("file-converted-again-after-another")
+        if any(e.endswith("_text") for _, e in hist[1:]):
+            ctx.hit("text-argument-read-after-another-read")
         if any(e.endswith("_print") for _, e in hist[1:]):
             ctx.hit("printing-conversion-with-colours-after-a-returning-one")
         if hist[0][0] == POISON and len(hist) >= 2:
@@ -206,7 +208,7 @@ class Runner:
                 ctx.hit("pair:A-has-resonance-B-lacks")
             if self.models[fa]["cartesian"] == 1 and not self.models[fb]["cartesian"]:
                 ctx.hit("pair:A-cartesian-B-not")
-            cls = {"read": "A", "cpp": "C", "read_cpp": "C", "py": "P", "read_py": "P", "cpp_print": "C", "py_print": "P"}
+            cls = {"read": "A", "cpp": "C", "read_cpp": "C", "py": "P", "read_py": "P", "cpp_print": "C", "py_print": "P", "read_cpp_text": "C", "read_py_text": "P"}
             if cls[ea] != cls[eb]:
                 ctx.hit("pair:crossing-reader-classes")
         color = any(e.endswith("_print") for _, e in hist)
@@ -275,6 +277,9 @@ def run(ctx):
         for i, e in enumerate(ENTRIES):
             jobs.append(([[POISON, e], [[0, 1, 5][i % 3], e]], 0, "failed-read-then-polar-file"))
         jobs.append(([[POISON, "read"], [0, "cpp"], [1, "py"]], 0, "failed-read-then-polar-file"))
+        # the readers given the text instead of the file name, after reads of other files
+        jobs.append(([[0, "read_cpp_text"], [1, "read_cpp_text"], [4, "read_py_text"]], 0, "text-argument"))
+        jobs.append(([[2, "read_py"], [5, "read_py_text"], [3, "read_cpp_text"]], 1, "text-argument"))
         # a printing conversion (colours on) after string-returning ones: what is printed does not depend on them
         jobs.append(([[0, "cpp"], [1, "cpp_print"]], 0, "printed-after-returned"))
         jobs.append(([[2, "py"], [3, "py_print"], [4, "cpp_print"]], 0, "printed-after-returned"))
